@@ -19,6 +19,7 @@ EXPLANATION = (
     "pending_requests (R2). The resend path is bounded by retries() >= request_retries with an increment before the "
     "re-insert and resends the stored packet; Timeout is constructed only there (R3). Multi-packet re-insertions "
     "are guarded by total > 1 and are disjoint from the final path that releases the exemption (R4).")
+EXPLANATION += (" Added while testing: R4 also requires every re-insert of a multi-packet NODES request to follow a stored update of the packets still expected (Some(total - 1), then - 1). R5: the request that travelled inside the handshake packet is not replayed under the new keys (new_session gets the handshake packet's nonce; replay_active_requests filters on it). R6: the Service keeps a request and its caller waiting only while further NODES packets are due (C11.R4's re-insertion obligations).")
 NOT_DECIDED = ["exactly-once under every interleaving of the two event sources", "that Timeout is reported only after a full timeout period (delay_map timer semantics)",
                "synchrony of the two maps inside ActiveRequests", "'never two outcomes' is carried by move semantics (fail_request takes the call by value), a typing fact"]
 TRUSTED = ["ActiveRequests::insert stores the call (it is outstanding again)", "the nonce double-check exit of handle_challenge is infeasible by remove_by_nonce's checked postcondition (C13.R1)"]
